@@ -6,6 +6,12 @@ import numpy as np
 import numpy.typing as npt
 import pandas as pd
 
+try:
+    from numpy import trapezoid
+except ImportError:
+    # numpy < 2.0 only has the old name; numpy >= 2.4 only the new one
+    from numpy import trapz as trapezoid
+
 from ..dynamic.time_corr import time_correlation
 from ..reader.reader_utils import Snapshots
 from ..static.gr import conditional_gr
@@ -39,7 +45,7 @@ def s2_integral(gr: npt.NDArray, gr_bins: npt.NDArray, ndim: int = 3) -> float:
     """
     y = gr * np.log(gr) - gr + 1
     y *= np.power(gr_bins, ndim - 1)
-    return np.trapz(y, gr_bins)
+    return trapezoid(y, gr_bins)
 
 
 class S2:
